@@ -66,13 +66,13 @@ def gen_head(rng):
     k = rng.random()
     if k < 0.08:
         return rng.choice(JUNK) + (rng.choice(BODIES) if rng.random() < 0.5 else b"")
-    ver = b"HTTP/1.%d" % rng.randrange(10) if rng.random() < 0.7 else rng.choice(VERSIONS)
-    d1 = b" " if rng.random() < 0.8 else rng.choice(DELIMS)
+    ver = (b"HTTP/1.%d" % rng.randrange(10) if rng.random() < 0.8 else b"ICY") if rng.random() < 0.88 else rng.choice(VERSIONS)
+    d1 = b" " if rng.random() < 0.88 else rng.choice(DELIMS)
     st = (b"%03d" % rng.choice([100, 199, 200, 204, 206, 301, 304, 404, 500, 599, rng.randrange(100, 600)])
-          if rng.random() < 0.75 else rng.choice(STATUSES))
-    d2 = b" " if rng.random() < 0.8 else rng.choice(DELIMS)
+          if rng.random() < 0.85 else rng.choice(STATUSES))
+    d2 = b" " if rng.random() < 0.88 else rng.choice(DELIMS)
     reason = rng.choice(REASONS)
-    eol = b"\r\n" if rng.random() < 0.7 else rng.choice(EOLS)
+    eol = b"\r\n" if rng.random() < 0.8 else rng.choice(EOLS)
     if ver in (b"ICY",):
         line = b"ICY " + st + d2 + reason + eol
     else:
@@ -133,8 +133,10 @@ def gen_cases(rng, n):
         k = rng.random()
         if k < 0.80:
             s = gen_head(rng)
-            if rng.random() < 0.35:
+            if rng.random() < 0.25:
                 s = mutate_bytes(rng, s)
+            if rng.random() < 0.15:
+                s = s[:rng.randrange(len(s) + 1)]
             segs = split(rng, s)
             cases.append("resp.parse %d %d %s" % (rng.random() < 0.5, limit_for(rng, s), " ".join(hx(x) for x in segs)))
         elif k < 0.88:
@@ -152,21 +154,271 @@ def gen_cases(rng, n):
     return cases
 
 
+# ------------------------------------------------------------------ oracle
+# An independent statement of the property, evaluated on the IMPLEMENTATION's answers.
+HTTP_MAGIC = b"HTTP/1."
+ICY_MAGIC = b"ICY "
+GATEWAY = ("http", 1, 1, 200, b"Gatewaying",
+           b"X-Transformed-From: HTTP/0.9\r\nMime-Version: 1.0\r\nExpires: -1\r\n\r\n")
+DIGITS = set(b"0123456789")
+PHRASE = set([9, 32]) | set(range(33, 127)) | set(range(128, 256))
+
+
+def delims(relaxed):
+    return set(b" \t\x0b\x0c\r") if relaxed else set(b" ")
+
+
+class Need(Exception):
+    pass
+
+
+class Bad(Exception):
+    pass
+
+
+def m_lit(s, pos, lit):
+    chunk = s[pos:pos + len(lit)]
+    if chunk == lit:
+        return pos + len(lit)
+    if lit.startswith(chunk):       # input ended inside the literal
+        raise Need()
+    raise Bad()
+
+
+def m_cls(s, pos, cls, lo, hi):
+    """greedy run of cls, lo..hi bytes (hi None = unbounded); returns new pos"""
+    k = 0
+    while pos + k < len(s) and s[pos + k] in cls and (hi is None or k < hi):
+        k += 1
+    if hi is not None and k == hi:
+        return pos + k
+    if pos + k == len(s):           # the run may still grow
+        raise Need()
+    if k < lo:
+        raise Bad()
+    return pos + k
+
+
+def match_status_line(s, relaxed):
+    """three-valued recogniser for
+         status-line = ("HTTP/1." DIGIT delim / "ICY ") 3DIGIT delim *phrase-char eol   with 100 <= status <= 599
+       returns ("ok", proto, minor, status, reason, line_length) | ("need",) | ("bad",) | ("gateway",)"""
+    if not s:
+        return ("need",)
+    rel_h = s.startswith(HTTP_MAGIC) or HTTP_MAGIC.startswith(s)
+    rel_i = s.startswith(ICY_MAGIC) or ICY_MAGIC.startswith(s)
+    if not rel_h and not rel_i:
+        return ("gateway",)
+    D = delims(relaxed)
+    try:
+        if rel_h:
+            pos = m_lit(s, 0, HTTP_MAGIC)
+            p2 = m_cls(s, pos, DIGITS, 1, 1); minor = s[pos] - 48; pos = p2
+            pos = m_cls(s, pos, D, 1, 1)
+            proto = "http"
+        else:
+            pos = m_lit(s, 0, ICY_MAGIC); minor = 0; proto = "icy"
+        p2 = m_cls(s, pos, DIGITS, 3, 3); status = int(s[pos:p2]); pos = p2
+        pos = m_cls(s, pos, D, 1, 1)
+        if not 100 <= status <= 599:
+            raise Bad()
+        p2 = m_cls(s, pos, PHRASE, 0, None); reason = s[pos:p2]; pos = p2
+        if relaxed and s[pos:pos + 1] == b"\n":
+            pos += 1
+        else:
+            pos = m_lit(s, pos, b"\r\n")
+        return ("ok", proto, minor, status, reason, pos)
+    except Need:
+        return ("need",)
+    except Bad:
+        return ("bad",)
+
+
+def header_end(t):
+    """length of the header block at the start of t (up to and including the first empty line), 0 if none"""
+    m = re.search(rb"\n\r?\n", b"\n" + t)
+    return m.end() - 1 if m else 0
+
+
+def obs_fold(t, upto):
+    """does a line of t[:upto] start with SP / HTAB"""
+    starts = [0] + [i + 1 for i in range(len(t)) if t[i] == 10]
+    return any(p < upto and t[p] in b" \t" for p in starts)
+
+
+def clean_prefix(block):
+    m = re.match(rb"(?:[ \t\x0b\x0c\r][^\n]*(?:\n|$))*", block)
+    rest = block[m.end():]
+    return rest if rest else b"\r\n"
+
+
+def unfold(block):
+    return re.sub(rb"\r*\n[ \t]+", b" ", block)
+
+
+def parse_obs(o):
+    f = o.split(",")
+    if len(f) != 12:
+        raise ValueError("bad observation " + o[:80])
+    return {"ok": f[0] == "1", "stage": f[1], "proto": f[2], "major": int(f[3]), "minor": int(f[4]),
+            "completed": f[5] == "1", "status": int(f[6]), "reason": unhx(f[7]), "mime": unhx(f[8]),
+            "code": int(f[9]), "fls": int(f[10]), "rem": unhx(f[11])}
+
+
+def outcome(o, rem=None):
+    rem = o["rem"] if rem is None else rem
+    if o["stage"] != "D":
+        return ("more", (o["stage"], o["proto"], o["major"], o["minor"], o["completed"], o["status"], o["reason"],
+                         o["mime"], o["code"]), rem)
+    if o["ok"]:
+        return ("done", (o["proto"], o["major"], o["minor"], o["status"], o["reason"], o["mime"]), rem)
+    return ("bad", o["code"], o["status"])
+
+
+def oracle_parse(a, out):
+    relaxed = a[1] == "1"
+    limit = int(a[2])
+    segs = [unhx(x) for x in a[3:]]
+    s = b"".join(segs)
+    m = re.match(r"^W=(\S+) I=(\S+) R=(\S+)$", out)
+    if not m:
+        return ("oracle:resp.parse:output", "unparsable implementation output")
+    w = parse_obs(m.group(1))
+    tr = [parse_obs(x) for x in m.group(2).split(";")]
+    rest = unhx(m.group(3))
+    # (1) segmentation independence: the read loop ends exactly where the one-shot parse ends
+    ow = outcome(w)
+    oi = outcome(tr[-1], rest)
+    if ow != oi:
+        return ("oracle:resp.parse:segmentation",
+                "incremental parse (%d calls) ended in %r but one parse() of the same bytes gives %r" % (len(tr), oi, ow))
+    for k, o in enumerate(tr[:-1]):
+        if o["stage"] == "D" or o["ok"]:
+            return ("oracle:resp.parse:segmentation", "read loop continued after the parser finished")
+    # (2) grammar
+    g = match_status_line(s, relaxed)
+    if g[0] == "gateway":
+        if ow != ("done", GATEWAY, s):
+            return ("oracle:resp.parse:http09", "input without HTTP/ICY prefix must be gatewayed as an HTTP/0.9 body, got %r" % (ow,))
+        return None
+    if ow[0] == "done" and ow[1] == GATEWAY and ow[2] == s and not w["completed"]:
+        return ("oracle:resp.parse:http09", "input starting with (a prefix of) an HTTP/ICY magic was gatewayed as HTTP/0.9")
+    if g[0] == "need":
+        if not (ow[0] == "more" and w["stage"] in ("N", "F") and (w["stage"] == "F" or not s)):
+            return ("oracle:resp.parse:status-line", "status line is incomplete, parser must wait in the first-line stage; got %r" % (ow,))
+        return None
+    if g[0] == "bad":
+        if not (ow[0] == "bad" and ow[1] == 600):
+            return ("oracle:resp.parse:status-line", "status line does not match the grammar but the parser did not reject it as invalid: %r" % (ow,))
+        return None
+    _, proto, minor, status, reason, ll = g
+    major = 1 if proto == "http" else 0
+    got = (w["proto"], w["major"], w["minor"], w["status"], w["reason"])
+    if got != (proto, major, minor, status, reason) or not w["completed"] or w["code"] == 600 or w["stage"] not in ("M", "D"):
+        return ("oracle:resp.parse:status-line",
+                "grammatical status line %r must be accepted with its fields; parser reports %r stage=%s code=%d"
+                % ((proto, major, minor, status, reason), got, w["stage"], w["code"]))
+    # (3) header block framing (size rule uses the parser's nominal first-line size; tolerate the
+    #     difference between nominal and actual first-line length)
+    tail = s[ll:]
+    e = header_end(tail)
+    nominal = (7 if proto == "http" else 4) + 1 + 5 + len(reason) + 2
+    lo, hi = min(nominal, ll), max(nominal, ll)
+    size = e if e else len(tail)
+    if hi + size < limit:
+        if e:
+            exp_mime = clean_prefix(tail[:e])
+            exp_mime = unfold(exp_mime)
+            exp = ("done", (proto, major, minor, status, reason, exp_mime), tail[e:])
+            if ow != exp:
+                return ("oracle:resp.parse:header-block", "expected %r, got %r" % (exp, ow))
+        elif ow[0] != "more" or ow[2] != tail:
+            return ("oracle:resp.parse:header-block", "header block incomplete and within limit: parser must wait retaining it; got %r" % (ow,))
+    elif lo + size >= limit:
+        if not (ow[0] == "bad" and ow[1] == 601 and ow[2] == status):
+            return ("oracle:resp.parse:header-block", "reply head reaches reply_header_max_size: expected Bad 601, got %r" % (ow,))
+    elif ow[0] == "done" and e and ow[2] != tail[e:]:
+        return ("oracle:resp.parse:header-block", "wrong unconsumed rest")
+    return None
+
+
 def oracle_sig(case, out):
+    a = case.split()
+    op = a[0]
+    if out.startswith(("CRASH", "EXC", "ERR")) or "BAD-" in out or not out:
+        return ("oracle:" + op + ":crash", "implementation crashed / threw / broke its own accounting: " + out[:200])
+    try:
+        if op == "resp.parse":
+            return oracle_parse(a, out)
+        if op == "resp.status":
+            relaxed = a[1] == "1"; s = unhx(a[2])
+            D = delims(relaxed)
+            good = len(s) >= 4 and all(c in DIGITS for c in s[:3]) and s[3] in D and 100 <= int(s[:3]) <= 599
+            if good:
+                exp = "ok %d %s" % (int(s[:3]), hx(s[4:]))
+                return None if out == exp else ("oracle:resp.status", "expected %s" % exp)
+            return ("oracle:resp.status", "status area is not 3DIGIT delim in 100..599 but was accepted") if out.startswith("ok") else None
+        if op == "resp.hend":
+            s = unhx(a[1]); e = header_end(s)
+            exp = "%d %d" % (e, obs_fold(s, e if e else len(s)))
+            return None if out == exp else ("oracle:resp.hend", "expected %s" % exp)
+        if op == "resp.clean":
+            exp = hx(clean_prefix(unhx(a[1])))
+            return None if out == exp else ("oracle:resp.clean", "expected %s" % exp)
+        if op == "resp.unfold":
+            exp = hx(unfold(unhx(a[1])))
+            return None if out == exp else ("oracle:resp.unfold", "expected %s" % exp)
+    except Exception as ex:
+        return ("oracle:" + op + ":output", "unparsable implementation output %r (%s)" % (out[:100], ex))
     return None
 
 
 def mutate(rng, case):
-    return case
+    """a neighbouring case: change bytes of the input or cut it differently"""
+    a = case.split()
+    if a[0] == "resp.parse":
+        s = b"".join(unhx(x) for x in a[3:])
+        if rng.random() < 0.6:
+            s = mutate_bytes(rng, s)
+        lim = a[2] if rng.random() < 0.7 else str(limit_for(rng, s))
+        rel = a[1] if rng.random() < 0.8 else str(1 - int(a[1]))
+        return "resp.parse %s %s %s" % (rel, lim, " ".join(hx(x) for x in split(rng, s)))
+    s = mutate_bytes(rng, unhx(a[-1]))
+    return " ".join(a[:-1] + [hx(s)])
 
 
 def kind_fn(c, o):
-    return c.split()[0]
+    a = c.split()
+    if a[0] != "resp.parse":
+        return a[0] + ":" + (o.split()[0] if a[0] == "resp.status" else "val")
+    m = re.match(r"^W=(\S+) ", o)
+    if not m:
+        return "resp.parse:?"
+    f = m.group(1).split(",")
+    if f[1] != "D":
+        k = "more-" + f[1]
+    elif f[0] == "1":
+        k = "done" if f[5] == "1" else "http09"
+    else:
+        k = "bad" + f[9]
+    return "resp.parse:%s:%s" % ("relaxed" if a[1] == "1" else "strict", k)
+
+
+def nontrivial(c, o):
+    a = c.split()
+    if a[0] == "resp.parse":
+        return len(a) > 4 or len(a[3]) > 2      # more than one segment, or more than one byte
+    return a[-1] != "-"
 
 
 def run(res, tier):
-    res.rule = "placeholder"
+    res.rule = ("response heads built from version/delimiter/status/reason/terminator/header/body alternatives (valid and "
+                "near-valid), junk and HTTP/0.9 bodies, byte-level mutations over the whole alphabet; each cut into segments "
+                "(one piece, every byte, 1..6 random cuts, empty segments) x strict/relaxed x reply_header_max_size in "
+                "{65536, tiny, len+-12}; plus ParseResponseStatus, headersEnd, cleanMimePrefix, unfoldMime on their own. "
+                "Compared call by call: return value, stage, protocol, version, completedStatus_, status, reason, mime block, "
+                "parseStatusCode, firstLineSize(), remaining(). Non-trivial = more than one segment or more than one byte")
     std.run_standard(res, PID, tier, area="respparse", build_impl=impl, gen_cases=gen_cases, oracle=oracle_sig,
                      corr_name="RespparseModel vs src/http/one/ResponseParser.cc, Parser.cc, mime_header.cc",
-                     gens=["charsets", "respparse"], n_quick=30000, n_thorough=400000, seed_salt=23, mutate=mutate,
-                     kind_fn=kind_fn, nontrivial_fn=lambda c, o: True)
+                     gens=["charsets", "respparse"], n_quick=20000, n_thorough=400000, seed_salt=23, mutate=mutate,
+                     kind_fn=kind_fn, nontrivial_fn=nontrivial)
